@@ -1,0 +1,177 @@
+//! Read-only verification hooks.  Compiled only with the `verif` feature
+//! (off by default).  Nothing here changes solver behaviour: the module
+//! re-exports internal types, wraps crate-private operations in plain
+//! public functions, and provides a thread-local observer that the solver
+//! calls with copies of its state.
+#![allow(non_snake_case)]
+
+use crate::algebra::*;
+use std::cell::RefCell;
+
+// ---------------------------------------------------------------
+// H1 : re-exports of internal (but `pub`) items that are unreachable
+// from outside only because `solver::core` is crate-private
+// ---------------------------------------------------------------
+pub use crate::algebra::{MatrixShape, MatrixTriangle};
+pub use crate::solver::core::cones::*;
+pub use crate::solver::core::{ScalingStrategy, StepDirection};
+
+/// y = a*A*x + b*y  (or A' with `transpose`) through the crate's own gemv
+pub fn gemv<T: FloatT>(A: &CscMatrix<T>, transpose: bool, y: &mut [T], x: &[T], a: T, b: T) {
+    if transpose {
+        A.t().gemv(y, x, a, b);
+    } else {
+        A.gemv(y, x, a, b);
+    }
+}
+
+/// y = a*sym(A)*x + b*y through the crate's own symv (A must be triu)
+pub fn symv<T: FloatT>(A: &CscMatrix<T>, y: &mut [T], x: &[T], a: T, b: T) {
+    A.sym().symv(y, x, a, b);
+}
+
+/// crate-private vector permutation helpers
+pub fn permute<T: Copy>(x: &mut [T], b: &[T], p: &[usize]) {
+    crate::algebra::permute(x, b, p);
+}
+pub fn ipermute<T: Copy>(x: &mut [T], b: &[T], p: &[usize]) {
+    crate::algebra::ipermute(x, b, p);
+}
+pub fn invperm(p: &[usize]) -> Vec<usize> {
+    crate::algebra::invperm(p)
+}
+
+// ---------------------------------------------------------------
+// H3 : per-iteration observer (thread local)
+// ---------------------------------------------------------------
+
+/// Where in the solve an event was recorded
+#[derive(Debug, Clone, Copy, PartialEq, Eq)]
+pub enum IterEventKind {
+    /// end of `Info::update`, i.e. once per pass of the main loop,
+    /// immediately before the termination test
+    Iterate,
+    /// top of `Solution::post_process`, before un-scaling
+    Final,
+}
+
+/// A copy of the solver state handed to the observer
+#[derive(Debug, Clone)]
+pub struct IterEvent {
+    pub kind: IterEventKind,
+    pub iterations: u32,
+    pub μ: f64,
+    pub step_length: f64,
+    pub sigma: f64,
+    pub τ: f64,
+    pub κ: f64,
+    pub x: Vec<f64>,
+    pub s: Vec<f64>,
+    pub z: Vec<f64>,
+    pub solve_time: f64,
+    pub status: crate::solver::SolverStatus,
+    pub cost_primal: f64,
+    pub cost_dual: f64,
+    pub res_primal: f64,
+    pub res_dual: f64,
+    pub res_primal_inf: f64,
+    pub res_dual_inf: f64,
+    pub gap_abs: f64,
+    pub gap_rel: f64,
+    pub ktratio: f64,
+    /// internal (scaled) inner products, meaningful for `Iterate` events
+    pub dot_bz: f64,
+    pub dot_qx: f64,
+}
+
+type Observer = Box<dyn FnMut(&IterEvent)>;
+
+thread_local! {
+    static OBSERVER: RefCell<Option<Observer>> = const { RefCell::new(None) };
+}
+
+/// Install (or remove) the observer for solves run on this thread
+pub fn set_observer(obs: Option<Observer>) {
+    OBSERVER.with(|o| *o.borrow_mut() = obs);
+}
+
+pub(crate) fn observer_is_set() -> bool {
+    OBSERVER.with(|o| o.borrow().is_some())
+}
+
+pub(crate) fn emit(ev: &IterEvent) {
+    OBSERVER.with(|o| {
+        if let Some(f) = o.borrow_mut().as_mut() {
+            f(ev);
+        }
+    });
+}
+
+pub(crate) fn vec_f64<T: FloatT>(v: &[T]) -> Vec<f64> {
+    v.iter().map(|x| x.to_f64().unwrap_or(f64::NAN)).collect()
+}
+pub(crate) fn to_f64<T: FloatT>(v: T) -> f64 {
+    v.to_f64().unwrap_or(f64::NAN)
+}
+
+// ---------------------------------------------------------------
+// H4 : KKT accessors
+// ---------------------------------------------------------------
+
+/// index maps of the KKT assembly flattened to plain vectors
+#[derive(Debug, Clone, Default)]
+pub struct KktMapDump {
+    pub P: Vec<usize>,
+    pub A: Vec<usize>,
+    pub Hsblocks: Vec<usize>,
+    pub diagP: Vec<usize>,
+    pub diag_full: Vec<usize>,
+    /// one entry per sparse-expandable cone in cone order.
+    /// SOC: `[u, v, D]`;  GenPow: `[p, q, r, D]`
+    pub sparse_maps: Vec<Vec<Vec<usize>>>,
+    /// expected D signs of the extra variables per sparse cone
+    pub sparse_dsigns: Vec<Vec<i8>>,
+}
+
+/// what the factorisation engine holds
+#[derive(Debug, Clone, Default)]
+pub struct EngineSnapshot<T> {
+    pub name: String,
+    /// the engine's private copy of the KKT values, mapped back to the
+    /// index order of the unpermuted KKT matrix
+    pub values: Vec<T>,
+    /// QDLDL only: D of the current factorisation and the permutation
+    pub D: Option<Vec<T>>,
+    pub perm: Option<Vec<usize>>,
+    pub regularize_count: Option<usize>,
+}
+
+/// state of a live direct-LDL KKT solver
+#[derive(Debug, Clone)]
+pub struct KktSnapshot<T> {
+    pub m: usize,
+    pub n: usize,
+    pub p: usize,
+    pub kkt: CscMatrix<T>,
+    pub dsigns: Vec<i8>,
+    pub map: KktMapDump,
+    pub hsblocks: Vec<T>,
+    pub diagonal_regularizer: T,
+    pub engine: EngineSnapshot<T>,
+}
+
+/// wrapper around the crate-private KKT assembly
+pub fn assemble_kkt<T: FloatT>(
+    P: &CscMatrix<T>,
+    A: &CscMatrix<T>,
+    cones: &CompositeCone<T>,
+    shape: MatrixTriangle,
+) -> (CscMatrix<T>, KktMapDump) {
+    crate::solver::core::kktsolvers::direct::verif_assemble_kkt(P, A, cones, shape)
+}
+
+// ---------------------------------------------------------------
+// H5 : chordal decomposition wrappers
+// ---------------------------------------------------------------
+#[cfg(feature = "sdp")]
+pub use crate::solver::chordal::verif_chordal::*;
